@@ -251,6 +251,30 @@ def grid_cases(rng, tier):
     return out
 
 
+def exhaustive_cases():
+    """small-scope enumeration (thorough tier; bounded search, never the claim): ALL ordered triples of
+    (a) the 13 strings of length <= 2 over {0x01, 0x80, 0xff}, (b) the 13 Int sequences of length <= 2 over
+    {0, 2^32, -1} (container kind cycling A/L/T), (c) the 9 single-binding-or-empty Trees over keys {0, 2^32}
+    and values {"", "a"} plus two 2-binding Trees"""
+    import itertools
+    out = []
+    al = [0x01, 0x80, 0xff]
+    strs = [b''] + [bytes([x]) for x in al] + [bytes([x, y]) for x in al for y in al]
+    for a, b, c in itertools.product(strs, repeat=3):
+        out.append('C S s%s s%s s%s' % (hexs(a), hexs(b), hexs(c)))
+    iv = [0, 2**32, -1]
+    seqs = [[]] + [[x] for x in iv] + [[x, y] for x in iv for y in iv]
+    kinds = 'ALT'
+    for n, (a, b, c) in enumerate(itertools.product(seqs, repeat=3)):
+        t = lambda xs, k: '%s(%s)' % (k, ','.join('i%d' % x for x in xs))
+        out.append('C Q(I) %s %s %s' % (t(a, kinds[n % 3]), t(b, kinds[(n // 3) % 3]), t(c, kinds[(n // 9) % 3])))
+    trees = ['M()'] + ['M(i%d:s%s)' % (k, v) for k in (0, 2**32) for v in ('', '61')] + \
+            ['M(i0:s,i4294967296:s61)', 'M(i4294967296:s61,i0:s)', 'M(i0:s61,i4294967296:s)', 'M(i0:s61,i0:s)']
+    for a, b, c in itertools.product(trees, repeat=3):
+        out.append('C M(I,S) %s %s %s' % (a, b, c))
+    return out
+
+
 # ------------------------------------------------------------------ verdict functions
 def sgn(x):
     return (x > 0) - (x < 0)
@@ -539,6 +563,14 @@ def run(ctx):
     hist['grid'] = len(grid)
     for i in range(0, len(grid), 2000):
         d.feed(grid[i:i + 2000])
+    if not quick:
+        ex = exhaustive_cases()
+        for i in range(0, len(ex), 3000):
+            d.feed(ex[i:i + 3000])
+        hist['exhaustive'] = len(ex)
+        ctx.cov['exhaustive'] = ('bounded search, not the claim: all %d ordered triples of the 13 strings of length <= 2 over bytes '
+                                 '{01,80,ff}, of the 13 Int sequences of length <= 2 over {0, 2^32, -1} (kinds cycling), and of 9 small '
+                                 'Trees over keys {0, 2^32}: no disagreement' % len(ex))
     n = 9000 if quick else 1000000
     for i in range(0, n, 3000):
         d.feed(batch(min(3000, n - i)))
